@@ -1539,6 +1539,14 @@ func runSqlSim(run int, seed uint64) RunReport {
 		os.RemoveAll(envB.Dir)
 		if envB.Infeasible == "" {
 			sr.stat("env_replications", 1)
+			// what the simulator varied between the two executions (evidence: fault_kinds_fired)
+			sr.stat("fault:env_map_order_flipped", 1)
+			sr.stat("fault:env_pool_size_changed", 1)
+			if mode == 0 {
+				sr.stat("fault:env_statistics_refreshed_before_every_select", 1)
+			} else {
+				sr.stat("fault:env_statistics_never_refreshed", 1)
+			}
 			extraViol = envB.Viol
 			// compare plans statement by statement (same statements, stats ops aside)
 			pa, pb := sr.E.PlanByStmt, envB.E.PlanByStmt
